@@ -214,6 +214,7 @@ func main() {
 		"LET x = {return: 1} RETURN x.return", "RETURN {current: 1}.current", "FOR i IN [1] COLLECT WITH COUNT INTO c RETURN c",
 		"LET keep = [1] FOR i IN keep RETURN i", "LET aggregate = 2 RETURN aggregate * 2", "RETURN {@count: 1}", "LET event = 1 RETURN [event, event][0]",
 		"LET _ = 1 RETURN 2", "LET desc = 1 FOR i IN [2,1] SORT i DESC RETURN i + desc", "RETURN 1..@count", "LET with = 1 RETURN with..3",
+		"LET current = {a: 1} RETURN current.a", "LET Current = [1] RETURN Current[0]", "LET CURRENT = {a: 1} RETURN CURRENT.a", "LET filter = {a: 1} RETURN filter.a", "LET Count = [1] RETURN Count[0].x",
 		"LET a_b1_c = 1 RETURN a_b1_c", "LET a__b = 1 RETURN a__b", "LET a_1 = 1 RETURN a_1", "LET ab1c_d = 1 RETURN ab1c_d",
 	} {
 		ls = append(ls, listed{t, true, "reserved-names"})
